@@ -236,7 +236,7 @@ class ScenarioRunner:
         holder["s"] = sch
         probe.install()
         if line_level:
-            S.LineYield.enable(sch)
+            S.LineYield.enable(sch, focus="sync" if line_level == "sync" else "all")
         try:
             sch.run()
         finally:
@@ -466,6 +466,15 @@ def explore(runner, bound, budget=None, rng=None, n_random=0, pct=0, normalise=N
         new = key not in seen
         seen.add(key)
         yield ob, judge(runner, ob, normalise), new
+
+
+def explore_sync_focus(runner, rng, n, normalise=None):
+    """Random schedules with statement-level yield points in the synchronisation code only, switching there with
+    high probability (see sched.FocusChooser)."""
+    for i in range(n):
+        ch = S.FocusChooser(rng, p_sync=rng.choice([0.2, 0.35, 0.5]), p_fs=rng.choice([0.05, 0.12, 0.25]))
+        ob = runner.run(ch, line_level="sync")
+        yield ob, judge(runner, ob, normalise), True
 
 
 def explore_line_level(runner, rng, n, normalise=None):
